@@ -32,6 +32,7 @@ static Case gen_case ()
 	c.seti ("mut", *rc::gen::element (0, 0, 0, 1, 2, 3)) ;	// 0 valid, 1 truncated, 2 byte flipped, 3 header garbage
 	c.seti ("cut", *rangeOf<int> (0, 1000)) ;
 	c.seti ("bigchunk", *rc::gen::element (0, 0, 0, 17000, 40001, 70000)) ;	// an unknown chunk of that size spliced in before the audio (WAV / AIFF families, valid inputs)
+	c.seti ("annot", *rc::gen::element (0, 0, 4, 9, 100, 70000)) ;	// AU annotation bytes between header and audio
 	c.seti ("id3", *rc::gen::element (0, 0, 0, 0, 10, 137)) ;	// an ID3v2 tag of that payload size in front of the file
 	c.seti ("lead", *rc::gen::element (1, 3, 4, 7, 64, 1001)) ; c.seti ("trail", *rc::gen::element (0, 1, 2, 13, 500)) ;
 	return c ;
@@ -83,6 +84,16 @@ static Result run_read (const Case &c, Result r)
 		std::vector<uint8_t> ck = iff_chunk ("JUNK", body, be) ; has_big = iff_insert (bytes, "data", ck) || iff_insert (bytes, "SSND", ck) ;
 	}
 	r.classes.push_back (std::string ("bigchunk:") + (has_big ? "1" : "0")) ;
+	long long annot = c.geti ("annot", 0) ; bool has_annot = false ;
+	if (annot && mut == 0 && (s.format & SF_FORMAT_TYPEMASK) == SF_FORMAT_AU && bytes.size () >= 24)
+	{	// AU annotation field: the data offset grows and that many bytes sit between the 24-byte header and the audio (the library never writes one)
+		bool be = memcmp (bytes.data (), ".snd", 4) == 0 ; uint32_t off = be ? rd_be32 (bytes.data () + 4) : rd_le32 (bytes.data () + 4) ;
+		if (off >= 24 && off <= bytes.size ())
+		{	std::vector<uint8_t> a ((size_t) annot) ; for (size_t k = 0 ; k < a.size () ; k++) a [k] = (uint8_t) ('A' + k % 23) ; bytes.insert (bytes.begin () + (long) off, a.begin (), a.end ()) ;
+			uint32_t noff = off + (uint32_t) annot ; for (int k = 0 ; k < 4 ; k++) bytes [4 + (size_t) k] = (uint8_t) (be ? noff >> (24 - 8 * k) : noff >> (8 * k)) ; has_annot = true ;
+		}
+	}
+	r.classes.push_back (std::string ("au_annotation:") + (has_annot ? "1" : "0")) ;
 	long long id3 = c.geti ("id3", 0) ; bool has_id3 = false ;
 	if (id3 && mut == 0 && !raw && (s.format & SF_FORMAT_TYPEMASK) == SF_FORMAT_WAV)
 	{	// an ID3v2.3 tag in front of the file (tag header: "ID3", version, flags, 28-bit sync-safe size), as tagging tools prepend it
@@ -111,6 +122,23 @@ static Result run_read (const Case &c, Result r)
 		if (f && cd1 && still) o.fdnote = "descriptor still open after sf_close although close_desc was true" ;
 		if (f && !cd1 && !still) o.fdnote = "descriptor closed by sf_close although close_desc was false" ;
 		if (still) close (fd) ;
+	}
+	// the same with descriptor number 0 (standard input closed first, so that open returns 0) - a legal descriptor like any other;
+	// and sf_open by path while 0 is free, so that the library's own descriptor is 0
+	if ((c.geti ("seed") % 8) == 1)
+	{	int saved = dup (0) ;
+		if (saved >= 0)
+		{	close (0) ; int fd = open (path.c_str (), O_RDONLY) ;
+			if (fd == 0)
+			{	SF_INFO i = mkinfo () ; SNDFILE *f = sf_open_fd (0, SFM_READ, &i, 1) ; Obs &o = obs ["fd1_zero"] ; observe (f, i, o, vox) ;
+				bool still = fcntl (0, F_GETFD) != -1 ; if (f && still) o.fdnote = "descriptor 0 still open after sf_close although close_desc was true" ; if (still) close (0) ;
+				SF_INFO i2 = mkinfo () ; SNDFILE *f2 = sf_open (path.c_str (), SFM_READ, &i2) ; Obs &o2 = obs ["path_zero"] ; observe (f2, i2, o2, vox) ;
+				if (fcntl (0, F_GETFD) != -1) { o2.fdnote = "sf_open / sf_close left the descriptor it had opened itself (number 0) open" ; close (0) ; }
+			}
+			else if (fd > 0) close (fd) ;
+			dup2 (saved, 0) ; close (saved) ;
+			r.classes.push_back ("descriptor_zero:1") ;
+		}
 	}
 	unlink (path.c_str ()) ;
 	// embedded at offset k with leading and trailing junk
